@@ -108,6 +108,13 @@ pub fn worker(ctx: &WorkerCtx) -> WorkerResult {
         fault::worker_hang_only(ctx, &res);
         return res.into_inner();
     }
+    if ctx.id == "C11" {
+        let mut r = history::worker(ctx);
+        if r.violations.is_empty() {
+            r.merge(crash::worker(ctx, "C11", 24, 800));
+        }
+        return r;
+    }
     if HISTORY_IDS.contains(&ctx.id.as_str()) {
         return history::worker(ctx);
     }
